@@ -10,7 +10,7 @@ SHARD = 50
 THEOREMS = [
     "C02_implied_iff_reachable", "C02_extends_strict", "C02_extends_nonstrict", "C02_sro_members", "C02_sro_nodup",
     "C02_sro_coherent", "C02_fresh_fuel_irrelevant", "C02_iro_is_interface_part",
-    "C02_dependents_complete", "C02_notification_order_irrelevant", "C02_acyclicb_sound",
+    "C02_dependents_complete", "C02_notification_order_irrelevant", "C02_acyclicb_sound", "C02_acyclicb_complete", "C02_op_ok_complete",
 ]
 RULE = ("histories of 3-25 operations over real InterfaceClass / Declaration / implementedBy(cls) / "
         "providedBy(ob) / providedBy(cls) objects with __bases__ reassignments at every kind of node, "
@@ -279,34 +279,37 @@ def _steps(case, obs):
                 mops.append("SetBases n%d %s" % (p[1], _l(bs)))
             else:
                 mops.append("Drop n%d" % p[1])
-        out.append((mops, st["snap"], dict(kinds)))
+        out.append((mops, st, dict(kinds)))
     return out
 
 
 def coq_case(case, obs, mode):
     steps = []
-    prev = {}
-    for mops, snap, kinds in _steps(case, obs):
-        rows = {row[0]: row for row in snap}
-        gone = [i for i in prev if i not in rows]
+    for mops, st, kinds in _steps(case, obs):
         sn = []
-        for row in snap:
-            if prev.get(row[0]) == row:
-                continue
+        for row in st["rows"]:
             i, bs, sro, iro, ioe, ext, extns, prov = row
             sn.append("%s n%d %s %s %s %s %s %s %s%s" % (
                 "sn" if prov is None else "snp", i, C.cbool(kinds.get(i) == "iface"), _l(bs), _l(sro), _l(iro),
                 _l(ioe), _l(ext), _l(extns), "" if prov is None else " " + _l(prov)))
-        steps.append("(%s, %s, %s)" % (C.clist(mops), _l(gone), C.clist(sn)))
-        prev = rows
+        steps.append("(%s, %s, %s)" % (C.clist(mops), _l(st["gone"]), C.clist(sn)))
     return "(%s, %s)" % (C.cbool("exc" in obs), C.clist(steps))
 
 
+def _graphs(obs):
+    """the base graph {id: bases} after every step, rebuilt from the transmitted differences"""
+    cur = {}
+    out = []
+    for st in obs.get("steps", []):
+        for i in st["gone"]:
+            cur.pop(i, None)
+        for r in st["rows"]:
+            cur[r[0]] = list(r[1])
+        out.append(dict(cur))
+    return out
+
+
 # --------------------------------------------------------------------------- classification
-
-def _graph(snap):
-    return {row[0]: list(row[1]) for row in snap}
-
 
 def _levels(g, x):
     deps = {}
@@ -348,18 +351,19 @@ def _facts(case, obs):
     steps = obs.get("steps", [])
     kinds = set()
     deepest, rebases, diamond, incons = 0, 0, False, False
+    graphs = _graphs(obs)
     for k, st in enumerate(steps):
         incons = incons or bool(st.get("incons"))
         for p in st["ops"]:
             if p[0] == "new":
                 kinds.add(p[2])
         if k >= 1:
-            before = _graph(steps[k - 1]["snap"])
+            before = graphs[k - 1]
             for p in st["ops"]:
                 if p[0] == "set" and p[1] in before:
                     rebases += 1
                     lv = _levels(before, p[1])
-                    if _diamond_or_shared(before) or _diamond_or_shared(_graph(st["snap"])):
+                    if _diamond_or_shared(before) or _diamond_or_shared(graphs[k]):
                         diamond = True
                         deepest = max(deepest, lv)
     return kinds, deepest, rebases, diamond, incons
@@ -371,7 +375,7 @@ def classify(case, obs):
     kinds, deepest, rebases, diamond, incons = _facts(case, obs)
     if not (diamond and deepest >= 2):
         return None
-    n = len(obs["steps"][-1]["snap"])
+    n = len(_graphs(obs)[-1])
     return (tuple(sorted(kinds)), min(n // 3, 5), min(rebases, 6), min(deepest, 4), incons)
 
 
@@ -425,8 +429,8 @@ def replay_text(case, obs, mode):
     if "exc" in obs:
         lines.append("# EXCEPTION: %s" % obs["exc"])
     for k, st in enumerate(obs.get("steps", [])):
-        lines.append("# step %d ops=%r" % (k, st["ops"]))
-        for row in st["snap"]:
+        lines.append("# step %d ops=%r gone=%r; rows that changed:" % (k, st["ops"], st["gone"]))
+        for row in st["rows"]:
             lines.append("#    %r" % (row,))
     return "\n".join(lines)
 
